@@ -509,7 +509,7 @@ func (h *runner) readCase(op int, in []byte, ck chunking, note string, model boo
 			}
 		}
 	}
-	if model && len(in) <= 1500 {
+	if model && len(in) <= 1500 && h.cases.Len() < h.o.Pick(2200, 9000) {
 		known := []string{}
 		kinds := []string{}
 		if (op != 2 || v.dt == 3) && v.nfields >= 1 {
@@ -652,7 +652,7 @@ func (h *runner) roundtrips(rounds int) {
 				if ck.Unit == 1 && len(up) > 1200 {
 					ck.Unit = 64
 				}
-				model := round < 1 && j < 4 && len(up) <= 700
+				model := round < 1 && j < 3 && len(up) <= 700
 				o := h.readCase(0, up, ck, fmt.Sprintf("request %T + body type %d", rh, bt), model)
 				res.Count(fmt.Sprintf("req:%T:%d", rh, j), true)
 				if o.tag != tagOk || !h.sameHeader(o.header, rh) || !bytes.Equal(o.rest, up[len(head):]) {
@@ -708,12 +708,12 @@ func (h *runner) roundtrips(rounds int) {
 			}
 			// a head that is the last thing on the stream (io.EOF may arrive together with its last bytes)
 			for j, ck := range []chunking{{Ending: 1}, {Unit: 1, Ending: 1}, {Unit: 16, Ending: 1}, {Ending: 0}} {
-				o := h.readCase(0, head, ck, fmt.Sprintf("request %T alone", rh), round == 0 && j < 2)
+				o := h.readCase(0, head, ck, fmt.Sprintf("request %T alone", rh), round == 0 && j < 1)
 				if o.tag != tagOk || !h.sameHeader(o.header, rh) || len(o.rest) != 0 {
 					res.Fail("roundtrip-request", fmt.Sprintf("%T written alone, read back tag=%d %T chunking=%+v %s", rh, o.tag, o.header, ck, firstLine(o.msg)), replay{Op: 0, Input: hex.EncodeToString(head), Chunking: &ck})
 				}
 				op := 1 + j%2
-				o = h.readCase(op, rhead, ck, fmt.Sprintf("response %T alone", rs), round == 0 && j < 2)
+				o = h.readCase(op, rhead, ck, fmt.Sprintf("response %T alone", rs), round == 0 && j < 1)
 				if o.tag != tagOk || !h.sameHeader(o.header, rs) || len(o.rest) != 0 {
 					res.Fail("roundtrip-response", fmt.Sprintf("%T written alone, read back (op %d) tag=%d %T chunking=%+v %s", rs, op, o.tag, o.header, ck, firstLine(o.msg)), replay{Op: op, Input: hex.EncodeToString(rhead), Chunking: &ck})
 				}
@@ -726,7 +726,7 @@ func (h *runner) roundtrips(rounds int) {
 					}
 					ck := randChunking(r, c)
 					ck.Ending = r.Intn(3)
-					o := h.readCase(0, head[:c], ck, "truncated request head", c%6 == 0)
+					o := h.readCase(0, head[:c], ck, "truncated request head", c%10 == 0)
 					if o.tag == tagOk {
 						res.Fail("truncation-accepted", fmt.Sprintf("prefix of %d/%d bytes of a request head accepted", c, len(head)), replay{Op: 0, Input: hex.EncodeToString(head[:c]), Chunking: &ck})
 					}
@@ -737,7 +737,7 @@ func (h *runner) roundtrips(rounds int) {
 					}
 					ck := randChunking(r, c)
 					ck.Ending = r.Intn(3)
-					o := h.readCase(1+c%2, rhead[:c], ck, "truncated response head", c%6 < 2)
+					o := h.readCase(1+c%2, rhead[:c], ck, "truncated response head", c%10 < 2)
 					if o.tag == tagOk {
 						res.Fail("truncation-accepted", fmt.Sprintf("prefix of %d/%d bytes of a response head accepted", c, len(rhead)), replay{Op: 1 + c%2, Input: hex.EncodeToString(rhead[:c]), Chunking: &ck})
 					}
